@@ -43,6 +43,7 @@ type SeqState struct {
 	closing          bool
 	Closed           bool
 	Cap              int
+	reqOps           map[int]uint32 // kernel wd -> union of the operations requested for it (C15's subscription side)
 }
 
 func (s *SeqState) vs() *vsys.State { return vsys.Get() }
@@ -120,11 +121,46 @@ func (s *SeqState) Close() {
 	s.Fd = -1
 }
 
-func (s *SeqState) Add(p string) error {
+// opFlags: the native flags needed to observe each portable operation (inotify(7), Op's documentation).
+var opFlags = map[uint32]uint32{1: inCREATE, 2: inMODIFY, 4: inDELETE | inDELETESELF, 8: inMOVEDTO | inMOVEDFROM | inMOVESELF, 16: inATTRIB,
+	32: 0x20, 64: 0x1, 128: 0x8, 256: 0x10}
+
+func flagsFor(ops uint32) uint32 {
+	var f uint32
+	for op, fl := range opFlags {
+		if ops&op != 0 {
+			f |= fl
+		}
+	}
+	return f
+}
+
+func (s *SeqState) Add(p string) error { return s.AddOps(p, 0) }
+
+// AddOps: ops == 0 is a plain Add (the default set).
+func (s *SeqState) AddOps(p string, ops uint32) error {
 	vs := s.vs()
 	before := len(vs.Calls)
 	snap := s.snapshot()
-	err := s.X.Add(s.W, p)
+	var err error
+	if ops == 0 {
+		err = s.X.Add(s.W, p)
+		ops = 0x1f
+	} else {
+		err = s.X.AddOps(s.W, p, ops)
+	}
+	if err == nil {
+		if ino, e := statIno(filepath.Clean(p), true); e == nil {
+			for _, m := range readMarks(s.Fd) {
+				if m.ino == ino {
+					if s.reqOps == nil {
+						s.reqOps = map[int]uint32{}
+					}
+					s.reqOps[m.wd] |= ops
+				}
+			}
+		}
+	}
 	s.M.Add(p, err, append([]vsys.Call{}, vs.Calls[before:]...), s.streamPos())
 	if err != nil {
 		if after := s.snapshot(); after != snap {
@@ -139,7 +175,8 @@ func (s *SeqState) Add(p string) error {
 			}
 		}
 		if !found {
-			s.problem("marks", "after a successful Add no kernel watch is on the inode the path names", fmt.Sprintf("Add(%q): marks %+v, inode %d", p, readMarks(s.Fd), ino))
+			// (also C01's business: whatever happens to that file from now on cannot be reported)
+			s.problem("unwatched", "after a successful Add no kernel watch is on the inode the path names", fmt.Sprintf("Add(%q): marks %+v, inode %d", p, readMarks(s.Fd), ino))
 		}
 	}
 	return err
@@ -352,6 +389,19 @@ func (s *SeqState) Checkpoint() {
 		sort.Strings(mbad)
 		s.problem("marks", "kernel watches out of step with WatchList: "+firstWords(mbad[0]), strings.Join(mbad, "; "))
 	}
+	// C15, subscription side: what the kernel holds for a watch is exactly what is needed to observe
+	// everything requested for it (requests for a path that stays watched accumulate)
+	for wd := range s.reqOps {
+		if _, ok := mk[wd]; !ok {
+			delete(s.reqOps, wd) // the watch ended
+		}
+	}
+	for _, m := range marks {
+		if ops, ok := s.reqOps[m.wd]; ok && m.mask&0xfff != flagsFor(ops) {
+			s.problem("subscription", "kernel-side mask of a watch differs from the flags needed for the requested operations",
+				fmt.Sprintf("wd %d: kernel mask %#x, requested operations %#x need %#x", m.wd, m.mask&0xfff, ops, flagsFor(ops)))
+		}
+	}
 }
 
 func firstWords(s string) string {
@@ -525,6 +575,9 @@ func (s *SeqState) DoOp(op string) {
 	switch f[0] {
 	case "A":
 		s.Add(arg(1))
+	case "AW": // AW <path> <hex op set>
+		v, _ := strconv.ParseUint(arg(2), 16, 32)
+		s.AddOps(arg(1), uint32(v))
 	case "R":
 		s.Remove(arg(1))
 	case "L":
